@@ -461,6 +461,32 @@ class SSETransport(Transport):
                         response_data = response.json()
                         logger.debug(f"Got immediate HTTP response for {message_id}")
 
+                        # The reply must carry JSON-RPC message(s). Anything else (a
+                        # scalar, null, {}, some other object) answers nothing: treat
+                        # it as a failed request so the caller still gets a terminal
+                        # message instead of waiting forever
+                        from chuk_mcp.protocol.messages.json_rpc_message import (
+                            parse_message,
+                        )
+
+                        candidates = (
+                            response_data
+                            if isinstance(response_data, list)
+                            else [response_data]
+                        )
+                        messages = []
+                        for candidate in candidates:
+                            try:
+                                if isinstance(candidate, dict):
+                                    parse_message(candidate)
+                                    messages.append(candidate)
+                            except Exception:
+                                pass
+                        if not messages:
+                            raise ValueError(
+                                "HTTP 200 reply carries no JSON-RPC message"
+                            )
+
                         # Cancel and remove the future
                         async with self._message_lock:
                             if message_id in self._pending_requests:
@@ -469,7 +495,8 @@ class SSETransport(Transport):
                                     future.cancel()
 
                         # Route response to incoming stream
-                        await self._route_incoming_message(response_data)
+                        for item in messages:
+                            await self._route_incoming_message(item)
 
                     elif response.status_code == 202:
                         # Async SSE response expected
